@@ -11,6 +11,7 @@ import Fbr.Lemmas.OvlMutA
 import Fbr.Lemmas.OvlMutP1
 import Fbr.Lemmas.OvlMutP2
 import Fbr.Lemmas.OvlEval
+import Fbr.Lemmas.OvlFrame
 
 namespace Fbr.Ovl
 
@@ -35,12 +36,6 @@ theorem StatKept.trans {s s1 s2 : St} (h1 : StatKept s s1) (h2 : StatKept s1 s2)
   obtain ⟨m1, r1, rest1, hm1, hr1, hd1, hw1⟩ := h1 p' m0 r0 rest0 hm hr
   obtain ⟨m2, r2, rest2, hm2, hr2, hd2, hw2⟩ := h2 p' m1 r1 rest1 hm1 hr1
   exact ⟨m2, r2, rest2, hm2, hr2, by rw [hd2, hd1], fun h => hw2 (hw1 h)⟩
-
-/-- a visible node without its `user.x` xattr (which copy-up does not copy: known finding) -/
-def VNode.dropX : VNode → VNode
-  | .file m c _ => .file m c 0
-  | .dir m _ => .dir m 0
-  | v => v
 
 /-- the upper entry at `p` afterwards shows what the node's first real inode showed before, up to
     the xattr -/
